@@ -122,7 +122,20 @@ def check_pushforward(ctx, c):
                 phi_used = phi
         else:
             a, b = c["a"], c["b"]
-            t = fn(x, mean=mu, var=var, a=a, b=b)
+            # bounds are independent keywords: both, or only one of them (the other keeps its moment-preserving default)
+            which = ["both", "a", "b"][c["pseed"] % 3] if "pseed" in c else "both"
+            if which == "a":
+                b = mu + fac * sig
+                if not a < b:
+                    a = b - 1.0
+                t = fn(x, mean=mu, var=var, a=a)
+            elif which == "b":
+                a = mu - fac * sig
+                if not a < b:
+                    b = a + 1.0
+                t = fn(x, mean=mu, var=var, b=b)
+            else:
+                t = fn(x, mean=mu, var=var, a=a, b=b)
             phi_used = phi
         if kind == "arcsin":
             u = np.clip((t - a) / (b - a), 0.0, 1.0)
